@@ -362,6 +362,18 @@ NUM_UNITS = ["-", "m", "kg", "mm", "°C", "m/s", "%", "N m", "", "1/s", "Text", 
 SPACES = "".join(chr(c) for c in rc.SPACE_CPS)
 
 
+CASE_PAIRS = [("t", "T"), ("Maß", "MASS"), ("straße", "STRASSE"), ("é", "É"), ("µ", "Μ"), ("ǆ", "ǅ"), ("x y", "X Y"),
+              ("ﬁ", "fi"), ("K", "K"), ("name", "Name")]
+
+
+def case_variant(nm):
+    """another spelling of the same letters: swapped / upper / lower case, whichever differs"""
+    for v in (nm.swapcase(), nm.upper(), nm.lower(), nm.title()):
+        if v != nm and v.strip(SPACES) == v:
+            return v
+    return nm
+
+
 def rand_str(rng, alpha, lo, hi):
     return "".join(rng.choice(alpha) for _ in range(rng.randint(lo, hi)))
 
@@ -386,6 +398,11 @@ def gen_spec(rng, allow_nat=True):
         nm = rand_str(rng, NAME_ALPHA, 1, 5).strip(SPACES)
         if nm and nm not in names:
             names.append(nm)
+    # column names that differ only in letter case / only after Unicode case folding are different names
+    if len(names) >= 2 and rng.random() < 0.3:
+        pair = rng.choice(CASE_PAIRS + [(names[0], case_variant(names[0]))] * 3)
+        if pair[0] != pair[1] and pair[1] and len({pair[0], pair[1], *names[2:]}) == len(names):
+            names[0], names[1] = pair
     cols = []
     for nm in names:
         kind = rng.choice(["text", "onoff", "datetime", "num", "num", "int"])
@@ -592,7 +609,8 @@ def run(tier, seed, model_ok, translator, search=False):
     out = Outcome()
     out.rule = ("(a) to_json_serializable on a zoo of Python / numpy / pandas objects (every dispatch branch, fallbacks, "
                 "failures); (b) well-formed tables of all column kinds (NaN, +-inf, integral and fractional numbers, int64, "
-                "microsecond and nanosecond datetimes, NaT, zero rows / columns, unicode and JSON-hostile text, names and destinations; row labels of the backing "
+                "microsecond and nanosecond datetimes, NaT, zero rows / columns, unicode and JSON-hostile text, names and destinations; column names differing only in letter case or only after "
+                "Unicode case folding ('t'/'T', 'Maß'/'MASS'); row labels of the backing "
                 "frame default / permuted / strings / duplicates / concat without ignore_index / DatetimeIndex) "
                 "-> table_to_json_data -> json.dumps(allow_nan=False) -> json.loads -> json_data_to_table; (c) reader-produced "
                 "JsonData (make_table_json_data and parse_blocks(to='jsondata')) of well-formed grids, text and native cells, "
